@@ -19,7 +19,8 @@ PY_ONLY = {"method-property", "stateless-class", "lbyl", "pipeline"}
 RUST_ONLY = {"unwrap-abuse", "clone-abuse", "blocking-async"}
 PY_TS = {"improper-logging", "print-statements", "perf", "string-concat-loop", "regex-in-loop", "stringly-typed"}
 ANY_SOURCE = {"nesting", "srp", "magic-numbers", "dry", "lazy-ignores"}
-NON_SOURCE_OK = {"file-placement", "file-header"}  # documented for non-source file types
+NON_SOURCE_OK = {"file-placement", "file-header"}
+CROSS = {"dry", "stringly-typed"}  # documented for non-source file types
 LANG_OF_EXT = {".py": "py", ".ts": "ts", ".tsx": "ts", ".js": "js", ".jsx": "js", ".rs": "rs"}
 
 FOREIGN = {
@@ -93,7 +94,7 @@ def run_cmds(arg):
     runner.write_tree(d, files)
     out = {}
     for cmd in cmds:
-        r = runner.cli([cmd, "--format", "json", target], d)
+        r = runner.cli([cmd, "--format", "json"] + (target if isinstance(target, list) else [target]), d)
         vs = r.violations()
         out[cmd] = {"exit": r.exit, "v": None if vs is None else sorted([v["rule_id"], v["file_path"], v["line"], v["column"], v["message"]] for v in vs),
                     "err": r.err[-300:] if vs is None else ""}
@@ -141,6 +142,13 @@ def run(ctx):
     for name, (files, mapping) in tw.items():
         jobs.append((files, cmds, "."))
         meta.append(("twin", (name, mapping)))
+    # extension-less pair: language is decided per file (python shebang or not), in whatever order the files are seen
+    py_body = triggers.files("x")["src/appx.py"]
+    pair = {"bin/a_tool": "#!/usr/bin/env python3\n" + py_body, "bin/z_notes": py_body, "bin/m_data.txt": py_body, "bin/q_more.txt": "#!/usr/bin/env python3\n" + py_body,
+            "bin/ref_tool.py": "#!/usr/bin/env python3\n" + py_body}
+    for order in (["bin/a_tool", "bin/z_notes", "bin/q_more.txt", "bin/m_data.txt", "bin/ref_tool.py"], ["bin/z_notes", "bin/ref_tool.py", "bin/m_data.txt", "bin/a_tool", "bin/q_more.txt"], ["bin"]):
+        jobs.append((pair, cmds, order))
+        meta.append(("shebang-pair", order))
     outs = runner.pmap(run_cmds, jobs, timeout=600)
     for (kind, _), o in zip(meta, outs):
         if not o.get("ok"):
@@ -202,6 +210,30 @@ def run(ctx):
                 ctx.discrepancy("rust-rule-on-%s:%s" % (lang, cmd), "`%s` reports %s on %s" % (cmd, v[0], fp), {"argv": [cmd, "--format", "json", "."]}, poly)
             elif cmd in PY_TS and lang == "rs":
                 ctx.discrepancy("py-ts-rule-on-rs:%s" % cmd, "`%s` reports %s on %s" % (cmd, v[0], fp), {"argv": [cmd, "--format", "json", "."]}, poly)
+    # (c2) extension-less pair
+    ref_job = None
+    for (kind, info), r, job in zip(meta, res, jobs):
+        if kind != "shebang-pair":
+            continue
+        for cmd in cmds:
+            ctx.evaluations += 1
+            if r[cmd]["v"] is None:
+                ctx.discrepancy("run-error-shebang-pair:%s" % cmd, "%s: %s" % (info, r[cmd]["err"]), {"argv": [cmd, "--format", "json"] + info}, job[0])
+                continue
+            ctx.count("shebang_pair_checked")
+            by_file = {}
+            for v in r[cmd]["v"]:
+                by_file.setdefault(v[1], []).append((v[0], v[2], v[3]))
+            for f in ("bin/z_notes", "bin/m_data.txt"):  # (q_more.txt: unknown extension WITH a python shebang - not judged, the property only names extension-less scripts)
+                if by_file.get(f) and cmd not in NON_SOURCE_OK:
+                    ctx.discrepancy("no-shebang-file-analysed:%s" % cmd, "`%s %s`: %s (no python shebang / unrecognised extension) gets %r" % (cmd, " ".join(info), f, by_file[f][:2]),
+                                    {"argv": [cmd, "--format", "json"] + info}, job[0])
+            if cmd not in NON_SOURCE_OK and cmd not in CROSS:
+                # the shebang script is analysed exactly like its .py twin (same content), wherever it comes in the order
+                a, b = sorted(by_file.get("bin/a_tool", [])), sorted(by_file.get("bin/ref_tool.py", []))
+                if a != b:
+                    ctx.discrepancy("shebang-script-differs-from-py-twin:%s" % cmd, "`%s %s`: extension-less python script gets %r, its .py twin %r" % (cmd, " ".join(info), a[:2], b[:2]),
+                                    {"argv": [cmd, "--format", "json"] + info}, job[0])
     # (d) twins
     canon = res[[m for m in meta].index(("twin", ("canonical", {})))]
     for (kind, info), r, job in zip(meta, res, jobs):
